@@ -35,7 +35,7 @@ func simPolyStrings(a []*big.Int) []string {
 	return s
 }
 
-var simBadShareKinds = map[string]bool{"omit": true, "bad": true, "zero": true, "ger": true, "badlen": true, "wrongtag": true, "empty": true, "late": true}
+var simBadShareKinds = map[string]bool{"omit": true, "bad": true, "trunc": true, "zero": true, "ger": true, "badlen": true, "wrongtag": true, "empty": true, "late": true}
 var simBadAnswerKinds = map[string]bool{"omit": true, "bad": true, "zero": true, "ger": true, "badlen": true, "badidx": true}
 var simBadVecKinds = map[string]bool{"omit": true, "badlen": true, "badpoint": true, "badvalue": true, "offcurve": true, "notg2": true}
 
@@ -156,6 +156,24 @@ func simGen(tier string, r *rand.Rand, prop string) []Case {
 					in.MustFail = simBadVecKinds[vk] || simBadShareKinds[sk]
 					in.MustKeys = !in.MustFail
 					cs = append(cs, mkcase("vss-"+vk+"-"+sk, in))
+				}
+			}
+		}
+	}
+	if prop == "C08" {
+		// a malformed LAST point and the share that matches the vector without it, both orders
+		for rep := 0; rep < 6; rep++ {
+			for _, vk := range []string{"badpoint", "badvalue", "offcurve", "notg2"} {
+				for _, hint := range []string{"share-first", "vector-first"} {
+					n := 3 + r.IntN(3)
+					t := 1 + r.IntN(n-1)
+					in := simBase(r, "vss", n, t, 0, []int{0})
+					in.Honest = []int{1 + r.IntN(n-1)}
+					in.Hint = hint
+					in.Byz[0].Vec = vk
+					in.Byz[0].Shares[strconv.Itoa(in.Honest[0])] = "trunc"
+					in.MustFail = true
+					cs = append(cs, mkcase("vss-trunc-"+vk, in))
 				}
 			}
 		}
